@@ -122,31 +122,44 @@ pub fn raw_of<T: std::fmt::Debug>(t: &T) -> i128 {
     }
 }
 
-#[derive(Debug, Clone)]
-pub struct UmObs {
-    /// bits reported dirty by is_bit_dirty (probed from 0 until the accessor panics / 2048)
-    pub dirty: Vec<u16>,
-    /// the message bytes of an SMSG_UPDATE_OBJECT carrying the mask
-    pub carrier: Result<Vec<u8>, String>,
-    /// value returned by the getter, as u32 words
-    pub getter: Option<Vec<u32>>,
-    /// the words that were set
-    pub set_words: Vec<u32>,
+/// one update mask object of some (expansion, kind), driven by accessor names
+pub trait MaskObj {
+    /// false when there is no such accessor
+    fn set(&mut self, name: &str, val: u64) -> bool;
+    /// None = no such accessor; Some(None) = field never set
+    fn get(&self, name: &str) -> Option<Option<Vec<u32>>>;
+    fn dirty_reset(&mut self);
+    fn mark_fully_dirty(&mut self);
+    fn has_any_dirty_fields(&self) -> bool;
+    fn is_bit_dirty(&self, bit: u16) -> bool;
+    /// bytes of an SMSG_UPDATE_OBJECT (VALUES) carrying the mask, written by the public writer
+    fn carrier(&self) -> Result<Vec<u8>, String>;
 }
 
-pub struct UmAccessor {
+pub struct UmKind {
     pub exp: &'static str,
     pub kind: &'static str,
-    pub name: &'static str,
-    pub sig: &'static str,
-    /// (tape value, through the builder instead of the mutable setter)
-    pub run: Option<fn(u64, bool) -> Option<UmObs>>,
+    /// (name, signature class, also settable through the builder)
+    pub accessors: &'static [(&'static str, &'static str, bool)],
+    pub custom: &'static [&'static str],
+    pub new: fn() -> Box<dyn MaskObj>,
+    /// Builder::new().set_<name>(val).finalize()
+    pub build: fn(&str, u64) -> Option<Box<dyn MaskObj>>,
 }
 
-pub fn dirty_bits(is_dirty: impl Fn(u16) -> bool + std::panic::RefUnwindSafe) -> Vec<u16> {
+/// the u32 words an accessor of signature class `sig` writes for tape value `val`
+pub fn words_of(sig: &str, val: u64) -> Vec<u32> {
+    match sig {
+        "f32" => vec![sane_f32(val as u32).to_bits()],
+        "guid" => vec![val as u32, (val >> 32) as u32],
+        _ => vec![val as u32],
+    }
+}
+
+pub fn dirty_bits(m: &dyn MaskObj) -> Vec<u16> {
     let mut v = Vec::new();
-    for b in 0..2048u16 {
-        match std::panic::catch_unwind(|| is_dirty(b)) {
+    for b in 0..4096u16 {
+        match std::panic::catch_unwind(std::panic::AssertUnwindSafe(|| m.is_bit_dirty(b))) {
             Ok(true) => v.push(b),
             Ok(false) => {}
             Err(_) => break,
@@ -177,59 +190,62 @@ macro_rules! um_carrier {
 }
 
 macro_rules! um_kind {
-    ($exp:ident, UpdateItem, $m:expr) => { wow_world_messages::$exp::UpdateMask::Item($m) };
-    ($exp:ident, UpdateContainer, $m:expr) => { wow_world_messages::$exp::UpdateMask::Container($m) };
-    ($exp:ident, UpdateUnit, $m:expr) => { wow_world_messages::$exp::UpdateMask::Unit($m) };
-    ($exp:ident, UpdatePlayer, $m:expr) => { wow_world_messages::$exp::UpdateMask::Player($m) };
-    ($exp:ident, UpdateGameObject, $m:expr) => { wow_world_messages::$exp::UpdateMask::GameObject($m) };
-    ($exp:ident, UpdateDynamicObject, $m:expr) => { wow_world_messages::$exp::UpdateMask::DynamicObject($m) };
-    ($exp:ident, UpdateCorpse, $m:expr) => { wow_world_messages::$exp::UpdateMask::Corpse($m) };
-}
-
-macro_rules! um_accessor {
-    ($exp:ident, $T:ident, $B:ident, $name:expr, $set:ident, $get:ident, $sig:ident, $has_builder:tt) => {
-        UmAccessor {
+    ($exp:ident, $T:ident, $B:ident, $V:ident, [$(($get:ident, $set:ident, $sig:ident, $hb:tt)),*], custom: [$($c:expr),*]) => {{
+        struct Obj(wow_world_messages::$exp::$T);
+        impl MaskObj for Obj {
+            fn set(&mut self, name: &str, val: u64) -> bool {
+                $( if name == stringify!($get) { um_kind!(@call $sig, self.0, $set, val); return true; } )*
+                let _ = val;
+                false
+            }
+            fn get(&self, name: &str) -> Option<Option<Vec<u32>>> {
+                $( if name == stringify!($get) { return Some(um_kind!(@get $sig, self.0.$get())); } )*
+                None
+            }
+            fn dirty_reset(&mut self) {
+                self.0.dirty_reset()
+            }
+            fn mark_fully_dirty(&mut self) {
+                self.0.mark_fully_dirty()
+            }
+            fn has_any_dirty_fields(&self) -> bool {
+                self.0.has_any_dirty_fields()
+            }
+            fn is_bit_dirty(&self, bit: u16) -> bool {
+                self.0.is_bit_dirty(bit)
+            }
+            fn carrier(&self) -> Result<Vec<u8>, String> {
+                let mask = wow_world_messages::$exp::UpdateMask::$V(self.0.clone());
+                match std::panic::catch_unwind(std::panic::AssertUnwindSafe(|| um_carrier!($exp, mask))) {
+                    Ok(r) => r,
+                    Err(_) => Err("write panicked (size() != bytes written, or bookkeeping assertion)".into()),
+                }
+            }
+        }
+        UmKind {
             exp: stringify!($exp),
             kind: stringify!($T),
-            name: $name,
-            sig: stringify!($sig),
-            run: Some(|val: u64, via_builder: bool| -> Option<UmObs> {
-                use wow_world_messages::$exp::{$B, $T};
-                let words: Vec<u32> = um_accessor!(@words $sig, val);
-                let m: $T = if via_builder {
-                    um_accessor!(@builder $has_builder, $B, $set, $sig, val)?
-                } else {
-                    let mut m = <$T>::new();
-                    m.dirty_reset();
-                    um_accessor!(@call $sig, m, $set, val);
-                    m
-                };
-                let getter: Option<Vec<u32>> = um_accessor!(@get $sig, m.$get());
-                let dirty = {
-                    let mr = std::panic::AssertUnwindSafe(&m);
-                    dirty_bits(move |b| mr.is_bit_dirty(b))
-                };
-                let carrier = um_carrier!($exp, um_kind!($exp, $T, m.clone()));
-                Some(UmObs { dirty, carrier, getter, set_words: words })
-            }),
+            accessors: &[$((stringify!($get), stringify!($sig), $hb)),*],
+            custom: &[$($c),*],
+            new: || Box::new(Obj(<wow_world_messages::$exp::$T>::new())),
+            build: |name, val| {
+                $( if name == stringify!($get) { return um_kind!(@builder $hb, $exp, $B, $set, $sig, val).map(|m| Box::new(Obj(m)) as Box<dyn MaskObj>); } )*
+                let _ = val;
+                None
+            },
         }
-    };
-    (@words i32, $v:expr) => { vec![$v as u32] };
-    (@words f32, $v:expr) => { vec![sane_f32($v as u32).to_bits()] };
-    (@words guid, $v:expr) => { vec![$v as u32, ($v >> 32) as u32] };
-    (@words bytes, $v:expr) => { vec![$v as u32] };
-    (@words shorts, $v:expr) => { vec![$v as u32] };
-    (@call i32, $m:ident, $set:ident, $v:expr) => { $m.$set($v as u32 as i32) };
-    (@call f32, $m:ident, $set:ident, $v:expr) => { $m.$set(sane_f32($v as u32)) };
-    (@call guid, $m:ident, $set:ident, $v:expr) => { $m.$set(wow_world_messages::Guid::new($v)) };
-    (@call bytes, $m:ident, $set:ident, $v:expr) => { $m.$set($v as u8, ($v >> 8) as u8, ($v >> 16) as u8, ($v >> 24) as u8) };
-    (@call shorts, $m:ident, $set:ident, $v:expr) => { $m.$set($v as u16, ($v >> 16) as u16) };
-    (@builder false, $B:ident, $set:ident, $sig:ident, $v:expr) => { None };
-    (@builder true, $B:ident, $set:ident, i32, $v:expr) => { Some(<$B>::new().$set($v as u32 as i32).finalize()) };
-    (@builder true, $B:ident, $set:ident, f32, $v:expr) => { Some(<$B>::new().$set(sane_f32($v as u32)).finalize()) };
-    (@builder true, $B:ident, $set:ident, guid, $v:expr) => { Some(<$B>::new().$set(wow_world_messages::Guid::new($v)).finalize()) };
-    (@builder true, $B:ident, $set:ident, bytes, $v:expr) => { Some(<$B>::new().$set($v as u8, ($v >> 8) as u8, ($v >> 16) as u8, ($v >> 24) as u8).finalize()) };
-    (@builder true, $B:ident, $set:ident, shorts, $v:expr) => { Some(<$B>::new().$set($v as u16, ($v >> 16) as u16).finalize()) };
+    }};
+    (@call i32, $m:expr, $set:ident, $v:expr) => { $m.$set($v as u32 as i32) };
+    (@call f32, $m:expr, $set:ident, $v:expr) => { $m.$set(sane_f32($v as u32)) };
+    (@call guid, $m:expr, $set:ident, $v:expr) => { $m.$set(wow_world_messages::Guid::new($v)) };
+    (@call bytes, $m:expr, $set:ident, $v:expr) => { $m.$set($v as u8, ($v >> 8) as u8, ($v >> 16) as u8, ($v >> 24) as u8) };
+    (@call shorts, $m:expr, $set:ident, $v:expr) => { $m.$set($v as u16, ($v >> 16) as u16) };
+    (@builder false, $exp:ident, $B:ident, $set:ident, $sig:ident, $v:expr) => { None::<wow_world_messages::$exp::$B>.map(|b| b.finalize()) };
+    (@builder true, $exp:ident, $B:ident, $set:ident, i32, $v:expr) => { Some(<wow_world_messages::$exp::$B>::new().$set($v as u32 as i32).finalize()) };
+    (@builder true, $exp:ident, $B:ident, $set:ident, f32, $v:expr) => { Some(<wow_world_messages::$exp::$B>::new().$set(sane_f32($v as u32)).finalize()) };
+    (@builder true, $exp:ident, $B:ident, $set:ident, guid, $v:expr) => { Some(<wow_world_messages::$exp::$B>::new().$set(wow_world_messages::Guid::new($v)).finalize()) };
+    (@builder true, $exp:ident, $B:ident, $set:ident, bytes, $v:expr) => { Some(<wow_world_messages::$exp::$B>::new().$set($v as u8, ($v >> 8) as u8, ($v >> 16) as u8, ($v >> 24) as u8).finalize()) };
+    (@builder true, $exp:ident, $B:ident, $set:ident, shorts, $v:expr) => { Some(<wow_world_messages::$exp::$B>::new().$set($v as u16, ($v >> 16) as u16).finalize()) };
     (@get i32, $e:expr) => { $e.map(|g| vec![g as u32]) };
     (@get f32, $e:expr) => { $e.map(|g| vec![g.to_bits()]) };
     (@get guid, $e:expr) => { $e.map(|g| vec![g.guid() as u32, (g.guid() >> 32) as u32]) };
